@@ -5,7 +5,7 @@
 //! oracle over the header: every read of a non-constant property is covered by a connection.
 //! Third: reads of a property without NOTIFY are rejected.
 
-use super::c01::{eval_binding, expect_of, prepare, walk_program, Prep, Prepared};
+use super::c01::{eval_binding, expect_of, prepare_with, settle, walk_program, Prep, Prepared};
 use super::finish;
 use crate::cfg;
 use crate::common::*;
@@ -178,8 +178,18 @@ fn pointer_props() -> Vec<&'static str> {
 }
 
 pub fn build_case(ch: &mut Chooser, name: &str) -> Built {
-    let nb = 4 + ch.below(12);
-    let p: Box<Prepared> = match prepare(ch, name, nb, &gen_opts()) {
+    // one document in five has 20-48 small bindings (guard bits of more than one word, nested
+    // updates between bindings whose indices are far apart)
+    let many = ch.chance(1, 5);
+    let nb = if many { 20 + ch.below(29) } else { 4 + ch.below(12) };
+    let n_derived = if many { 5 + ch.below(6) } else if ch.chance(1, 2) { 1 + ch.below(3) } else { 0 };
+    let mut opts = gen_opts();
+    if many {
+        ch.label("many-bindings-with-chains");
+        opts.max_expr_depth = 2;
+        opts.max_stmt_depth = 1;
+    }
+    let p: Box<Prepared> = match prepare_with(ch, name, nb, &opts, n_derived) {
         Prep::Ok(p) => p,
         Prep::Skip(w) => return Built::Skip(w),
         Prep::Fail(f) => return Built::Fail(f),
@@ -204,8 +214,17 @@ pub fn build_case(ch: &mut Chooser, name: &str) -> Built {
                 r.extend(rs);
             }
         }
+        // what the derived source properties read is live as well (binding chains)
+        for d in &p.derived {
+            if let Ok((_, rs)) = eval_binding(d, state) {
+                r.extend(rs);
+            }
+        }
+        // derived properties are not free: the history never sets them directly
+        r.retain(|(o, pn)| !p.derived.iter().any(|d| d.host == *o && d.prop == *pn));
         r
     };
+    let is_derived = |o: usize, pn: &str| p.derived.iter().any(|d| d.host == o && d.prop == pn);
     let mut ints = vec![];
     let mut strs = vec![];
     for k in &p.dynamic {
@@ -265,11 +284,12 @@ pub fn build_case(ch: &mut Chooser, name: &str) -> Built {
                 (o, pn, gen_value_of(ch, &ty, world), "set")
             }
         };
-        if !is_src_class(world.objs[obj].class) {
+        if !is_src_class(world.objs[obj].class) || is_derived(obj, prop) {
             continue;
         }
+        let before = state.clone();
         let old = state[obj].props.insert(prop, v.clone()).unwrap();
-        match expect_of(&p, &state) {
+        match settle(&p.derived, &mut state).and_then(|_| expect_of(&p, &state)) {
             Ok(exp) => {
                 let cxx_stmt = if what == "notify-only" {
                     // emit the notify signal without a change (with the value when the signal carries it)
@@ -291,11 +311,15 @@ pub fn build_case(ch: &mut Chooser, name: &str) -> Built {
                 } else if (what == "set") && old != v && fresh.remove(&(obj, prop)) {
                     leaf_after_repoint += 1;
                 }
+                let mut exp = exp;
+                for d in &p.derived {
+                    exp.push((names[d.host].clone(), d.prop.to_owned(), cxx::enc_value(&state[d.host].props[d.prop], &names)));
+                }
                 steps.push(Step { desc: format!("{what} {}.{} = {}", names[obj], prop, cxx::enc_value(&v, &names)), cxx: cxx_stmt, tracing: false, expect: exp, expect_trace: vec![] });
             }
             Err(_) => {
                 dropped += 1;
-                state[obj].props.insert(prop, old);
+                state = before;
             }
         }
     }
@@ -317,6 +341,7 @@ pub fn build_case(ch: &mut Chooser, name: &str) -> Built {
             ("re_points", repoints),
             ("leaf_changes_on_new_chain", leaf_after_repoint),
             ("property_reads_checked_for_coverage", covered_reads as u64),
+            ("derived_source_properties", p.derived.len() as u64),
         ],
         sample,
         unit,
